@@ -54,6 +54,10 @@ func (o outcome) String() string {
 		return fmt.Sprintf("wrote %d %d", o.rcode, o.n)
 	case "failed":
 		return "failed " + b2s(o.ne)
+	case "panic":
+		return "panic"
+	case "wrotepanic":
+		return fmt.Sprintf("wrotepanic %d %d", o.rcode, o.n)
 	default:
 		return fmt.Sprintf("wrotefailed %d %d %s", o.rcode, o.n, b2s(o.ne))
 	}
@@ -82,7 +86,16 @@ type script struct {
 	byID  map[uint16]outcome
 	calls atomic.Int64
 	adv   *advDisposer
+	// left is the time to the deadline of the last request's context (-1: none).
+	left atomic.Int64
+	// gate, if set, holds the queries whose name starts with slowPrefix until it
+	// is closed; entered counts those waiting or past it.
+	gate    atomic.Pointer[chan struct{}]
+	entered atomic.Int64
 }
+
+// slowPrefix marks the queries that wait at the handler's gate.
+const slowPrefix = "slow-"
 
 // nestedSuffix marks the queries of the concurrent client that the buffer
 // adversary sends while another request is in flight.
@@ -324,6 +337,15 @@ func (s *script) ServeDNS(ctx context.Context, rw dnsserver.ResponseWriter, req 
 		return rw.WriteMsg(ctx, req, s.adv.clone(pipelineResp(req, 0, 2)))
 	}
 	s.calls.Add(1)
+	if dl, ok := ctx.Deadline(); ok {
+		s.left.Store(int64(time.Until(dl)))
+	} else {
+		s.left.Store(-1)
+	}
+	if g := s.gate.Load(); g != nil && len(req.Question) == 1 && strings.HasPrefix(req.Question[0].Name, slowPrefix) {
+		s.entered.Add(1)
+		<-*g
+	}
 	s.mu.Lock()
 	o := s.o
 	if bo, ok := s.byID[req.Id]; ok {
@@ -356,6 +378,11 @@ func (s *script) ServeDNS(ctx context.Context, rw dnsserver.ResponseWriter, req 
 		return rw.WriteMsg(ctx, req, mk())
 	case "failed":
 		return scripted()
+	case "panic":
+		panic("scripted handler panic")
+	case "wrotepanic":
+		_ = rw.WriteMsg(ctx, req, mk())
+		panic("scripted handler panic after a write")
 	default:
 		_ = rw.WriteMsg(ctx, req, mk())
 
@@ -708,6 +735,9 @@ type env struct {
 	dlv *rand.Rand
 	// dlvEnd >= 0 asks for a particular ending of the next DoQ streams.
 	dlvEnd int
+	// doqAsync runs DoQ streams through serveQUICStreamAsync (the goroutine body
+	// with the recovery) instead of serveQUICStream.
+	doqAsync bool
 }
 
 func newEnv() (e *env) {
@@ -733,9 +763,9 @@ func newEnv() (e *env) {
 
 // reset replaces the servers after one of them got stuck.
 func (e *env) reset() {
-	dlv, end := e.dlv, e.dlvEnd
+	dlv, end, da := e.dlv, e.dlvEnd, e.doqAsync
 	*e = *newEnv()
-	e.dlv, e.dlvEnd = dlv, end
+	e.dlv, e.dlvEnd, e.doqAsync = dlv, end, da
 }
 
 // hangs counts the confirmed hangs (watchdog of a minute); theResult is the run's
@@ -959,7 +989,11 @@ func (e *env) runInner(t string, b []byte, req *dns.Msg, wok bool) (s sees) {
 			s.reset = strings.Contains(d.class, "reset")
 		}
 		qc := &fakeQUICConn{}
-		_ = e.doq.VerifC01ServeQUICStream(st, qc)
+		if e.doqAsync {
+			e.doq.VerifC01ServeQUICStreamAsync(st, qc)
+		} else {
+			_ = e.doq.VerifC01ServeQUICStream(st, qc)
+		}
 		s.status = stOpen
 		for _, c := range qc.codes {
 			if c == dnsserver.DOQCodeProtocolError {
@@ -3589,6 +3623,18 @@ func main() {
 
 	e := newEnv()
 	e.dlv = o.Rand("delivery")
+	if only := os.Getenv("C01_ONLY"); only != "" {
+		// Development aid: run the round-4 campaigns alone.
+		if strings.Contains(only, "panic") {
+			panicCampaign(o, r, m, e)
+		}
+		if strings.Contains(only, "wired") {
+			wiredLiveCampaign(o, r, m)
+		}
+		r.Finish()
+
+		return
+	}
 	acceptCampaign(r, m)
 	gridCampaign(o, r, m, e)
 	wireCampaign(o, r, m, e)
@@ -3603,6 +3649,8 @@ func main() {
 	bufferCampaign(o, r, e)
 	truncationCampaign(o, r, e)
 	liveCampaign(o, r)
+	panicCampaign(o, r, m, e)
+	wiredLiveCampaign(o, r, m)
 
 	r.Finish()
 }
